@@ -11,7 +11,7 @@ import itertools
 from collections import defaultdict
 from typing import Any, Dict, List, Tuple
 
-from .canon import canon_sim_full, digest, key_hash
+from .canon import canon, canon_sim_full, digest, key_hash
 from .fsx import _load, choices, hv_canon
 
 DROP_EVENT_FIELDS = {"session_id", "sim_time_start", "sim_time_end", "sim_time", "pickup_time", "request_time", "dropoff_time", "departure_time", "cancel_time", "travel_time"}
@@ -20,7 +20,9 @@ DROP_EVENT_FIELDS = {"session_id", "sim_time_start", "sim_time_end", "sim_time",
 def abstract_events(reports) -> tuple:
     out = []
     for r in reports:
-        items = tuple(sorted((k, repr(v)) for k, v in r.report.items() if k not in DROP_EVENT_FIELDS))
+        # floats are compared the way the state key compares them (10 significant decimals): two histories reaching the same
+        # abstract state differ in the last bits of accumulated write-only sums (odometer, energy totals)
+        items = tuple(sorted((k, repr(canon(v))) for k, v in r.report.items() if k not in DROP_EVENT_FIELDS))
         out.append((r.report_type.name, items))
     return tuple(sorted(out))
 
